@@ -20,7 +20,10 @@ def layouts(c, init, tier, name, files=None, invs=INVS, heap="8g"):
 def execute(c, lines, flips, base, extra=None):
     items = []
     for i, l in enumerate(lines):
-        pre = '{"sc":%d,"flips":"%s",' % (base + i, flips)
+        fl = flips
+        if flips == "all-sampled":      # every free byte for one layout in 16, region boundaries for the others
+            fl = "all" if (base + i) % 16 == 0 else "boundary"
+        pre = '{"sc":%d,"flips":"%s",' % (base + i, fl)
         if extra:
             pre += extra[i]
         items.append((base + i, pre + l[1:]))
@@ -71,7 +74,7 @@ def run(c):
     c.build_worker()
     tier = "q" if c.quick else "t"
     lines = layouts(c, "MCInit", tier, "layouts-" + tier)
-    res, deaths, items, st = execute(c, lines, "boundary" if c.quick else "all", 0)
+    res, deaths, items, st = execute(c, lines, "boundary" if c.quick else "all-sampled", 0)
     report(c, res, deaths, items)
     n, flips = st["n"], st["flips"]
     for l in lines[:1] + lines[len(lines) // 3:len(lines) // 3 + 1] + lines[-1:]:
@@ -118,7 +121,7 @@ def run(c):
                      "hashed ranges; the harness builds the image, compares authenticode.Parse().Hash() with SHA-256 over those ranges + padding, and flips %s "
                      "layout-neutral byte (digest must change iff covered). Plus >32 KiB sections and the repository binaries projected by an independent "
                      "PE reader. All layouts are distinct and non-trivial.") % ("2" if c.quick else "3", "" if c.quick else ", one-gap variants",
-                                                                              "region-boundary and one interior" if c.quick else "every")
+                                                                              "region-boundary and one interior" if c.quick else "region-boundary (every free byte for one layout in 16)")
     # canary: corrupt one emitted range -> must be noticed
     cj = json.loads(lines[len(lines) // 2])
     cj["ranges"][0][1] -= 1
